@@ -111,6 +111,23 @@ pub fn shaped_patterns(rng: &mut Rng, which: usize) -> Vec<Vec<u8>> {
             }
             rng.shuffle(&mut pats);
         }
+        7 => {
+            // degenerate and extreme small collections, in turn
+            let all: Vec<Vec<u8>> = (0..=255u8).map(|b| vec![b]).collect();
+            let menu: [Vec<Vec<u8>>; 10] = [
+                vec![],
+                vec![vec![]],
+                vec![vec![], vec![]],
+                vec![vec![0xFF]],
+                vec![vec![0xFF, 0xFF, 0xFF]],
+                vec![vec![b'a']],
+                all,
+                vec![vec![0x00]],
+                vec![vec![0x00, 0xFF], vec![0xFF, 0x00]],
+                vec![vec![b'a'], vec![b'a'], vec![]],
+            ];
+            return menu[(which / 10) % menu.len()].clone();
+        }
         _ => {
             let (p, _) = gen::patterns(rng, &Profile::default_sem());
             pats = p;
